@@ -55,6 +55,7 @@ void monReset() {
   g.futChecked = 0;
   g.maxOutstandingAtWait = 0;
   g.gatesStarted = 0;
+  g.programsDone = 0;
   g.release = 0;
   g.poolDead = false;
   g.poolDying = false;
@@ -166,7 +167,9 @@ void Task::operator()() const {
     tl.inSubmit = sIn;
     tl.inWait = sW;
     tl.fqN = sF;
+    g.programsDone.fetch_add(1, std::memory_order_relaxed);
   } else if (act != A_NONE) {
+    if (dwellUs) vrt::spinFor(static_cast<int>(dwellUs / 4)); // children are scheduled from the middle of the body
     int sIn = tl.inSubmit, sW = tl.inWait;
     tl.inSubmit = 0;
     tl.inWait = 0;
